@@ -96,6 +96,12 @@ func (dpq *DelayedPriorityQueue) Enqueue(
 		dpq.mutex.Lock()
 		defer dpq.mutex.Unlock()
 		dpq.requestCounts[req.priority]--
+		if req.isProcessed {
+			// released by the window processing at the very moment the TTL fired
+			return true, nil
+		}
+		// mark as given up, so that the window processing skips it
+		req.isProcessed = true
 		return false, nil
 	}
 }
@@ -167,16 +173,20 @@ func (dpq *DelayedPriorityQueue) processQueueItems() {
 		dpq.cl.Logger.Trace().
 			Str("requestID", req.ID).
 			Msgf("Attempt to process queued request")
-		select {
-		case req.doneCh <- struct{}{}:
-			close(req.doneCh)
-			dpq.currentWindowCounter++
+		// isProcessed is guarded by dpq.mutex, which the caller holds
+		if req.isProcessed {
 			dpq.cl.Logger.Trace().Str("requestID", req.ID).
-				Msgf("notified successful request processing to req.doneCh")
-		default:
-			dpq.cl.Logger.Trace().Str("requestID", req.ID).
-				Msgf("req.doneCh already closed")
+				Msgf("request already gave up waiting (TTL)")
+			continue
 		}
+		req.isProcessed = true
+		// doneCh is buffered, so the release also reaches a waiter that has
+		// not started listening yet
+		req.doneCh <- struct{}{}
+		close(req.doneCh)
+		dpq.currentWindowCounter++
+		dpq.cl.Logger.Trace().Str("requestID", req.ID).
+			Msgf("notified successful request processing to req.doneCh")
 		dpq.cl.Logger.Trace().Msgf("request %s processed in queue", req.ID)
 	}
 }
